@@ -4,10 +4,12 @@ import KoordVerif.Model.C04
 Driver for C04.  A case is one history on one PodGroupManager + fake framework handle.
   pgadd  g min pol mode shape k g1..gk   onPodGroupAdd      (shape of the groups annotation: 0 absent 1 "" 2 null
   pgupd  g min pol mode shape k g1..gk   onPodGroupUpdate    3 [] 4 JSON list g1..gk 5 not JSON; k = 0 unless shape 4)
-  pgdel  g                               onPodGroupDelete
+  pgdel  g [shape]                       onPodGroupDelete   (shape: what the registered handler's OnDelete was given — 0 the
+                                                             object, 1 a DeletedFinalStateUnknown by value, 2 a shape the
+                                                             code ignores; absent = direct call with the object)
   podadd p g node 0 anno [minOK min pol mode shape k g1..gk]    onPodAdd    (anno=1: annotation way, config follows)
   podupd p g node term anno [...]        onPodUpdate (term=1: terminated pod)
-  poddel p g                             onPodDelete
+  poddel p g [shape]                     onPodDelete        (shape as for pgdel)
   permit p g | unres p g | postbind p g | postfilter p g
   nogang k p                             entry point k on a pod without gang name (k=0 Permit -> verdict 3)
   # ...                                  trace record of the concurrency stream (observed order of completed calls of two
@@ -75,9 +77,12 @@ def parseOp (line : String) : Option Op :=
       | "pgadd", g :: cfg => if g < 0 then none else (parseCfg cfg).map fun c => .pgAdd g.toNat c
       | "pgupd", g :: cfg => if g < 0 then none else (parseCfg cfg).map fun c => .pgUpd g.toNat c
       | "pgdel", [g] => if g < 0 then none else some (.pgDel g.toNat)
+      | "pgdel", [g, shape] => if g < 0 ∨ shape < 0 then none else some (deliverDel 0 shape.toNat (.pgDel g.toNat))
       | "podadd", p :: g :: node :: term :: r => if term ≠ 0 then none else parsePod (p :: g :: node :: term :: r)
       | "podupd", xs => parsePod xs
       | "poddel", [p, g] => if p < 0 ∨ g < 0 then none else some (.podDel p.toNat g.toNat)
+      | "poddel", [p, g, shape] =>
+        if p < 0 ∨ g < 0 ∨ shape < 0 then none else some (deliverDel 0 shape.toNat (.podDel p.toNat g.toNat))
       | "permit", [p, g] => if p < 0 ∨ g < 0 then none else some (.permit p.toNat g.toNat)
       | "unres", [p, g] => if p < 0 ∨ g < 0 then none else some (.unreserve p.toNat g.toNat)
       | "postbind", [p, g] => if p < 0 ∨ g < 0 then none else some (.postBind p.toNat g.toNat)
